@@ -32,59 +32,59 @@ func NewProtocolSwitchServerConn(ln *listener, rawConn net.Conn) *ProtocolSwitch
 	}
 }
 
-// 推断连接类型
-func (c *ProtocolSwitchServerConn) detect() error {
+// 推断连接类型，返回包装后的连接对象。
+// wrapped 只在持有 lock 时读写：Read、Write、ProtectedConn 都经由这里或在锁内读取，
+// 不再在锁外判断 c.wrapped == nil（与 detect 的写入构成数据竞争）。
+func (c *ProtocolSwitchServerConn) detect() (net.Conn, error) {
 	c.lock.Lock()
 	defer c.lock.Unlock()
 	if c.wrapped != nil {
-		return nil
+		return c.wrapped, nil
 	}
 
 	err := c.p.ReadFirstHeader()
 	if err != nil {
-		return err
+		return nil, err
 	}
 	// 根据连接的记录层协议主版本号判断连接类型
 	switch c.p.major {
 	case 0x01:
 		// TLCP major version 0x01
 		if c.ln.tlcpCfg == nil {
-			return fmt.Errorf("pa: tlcp config not set")
+			return nil, fmt.Errorf("pa: tlcp config not set")
 		}
 		c.wrapped = tlcp.Server(c.p, c.ln.tlcpCfg)
 	case 0x03:
 		// SSL/TLS major version 0x03
 		if c.ln.tlsCfg == nil {
-			return fmt.Errorf("pa: tls config not set")
+			return nil, fmt.Errorf("pa: tls config not set")
 		}
 		c.wrapped = tls.Server(c.p, c.ln.tlsCfg)
 	default:
-		return notSupportError
+		return nil, notSupportError
 	}
-	return nil
+	return c.wrapped, nil
 }
 
-// ProtectedConn 返回被保护的连接对象
+// ProtectedConn 返回被保护的连接对象（协议尚未识别时为 nil）
 func (c *ProtocolSwitchServerConn) ProtectedConn() net.Conn {
+	c.lock.Lock()
+	defer c.lock.Unlock()
 	return c.wrapped
 }
 
 func (c *ProtocolSwitchServerConn) Read(b []byte) (n int, err error) {
-	if c.wrapped == nil {
-		err = c.detect()
-		if err != nil {
-			return 0, err
-		}
+	w, err := c.detect()
+	if err != nil {
+		return 0, err
 	}
-	return c.wrapped.Read(b)
+	return w.Read(b)
 }
 
 func (c *ProtocolSwitchServerConn) Write(b []byte) (n int, err error) {
-	if c.wrapped == nil {
-		err = c.detect()
-		if err != nil {
-			return 0, err
-		}
+	w, err := c.detect()
+	if err != nil {
+		return 0, err
 	}
-	return c.wrapped.Write(b)
+	return w.Write(b)
 }
